@@ -78,10 +78,14 @@ func (c *CVMContract) execute(st engine.State, params engine.CallParams) ([]byte
 		// CVM GAS CONSUMPTION
 		// Look up an instruction's gas cost in op_table and consumes gas using useGasNegative() function.
 		// An instruction can have either static gas or dynamic gas.
-		gaserr := engine.UseGasNegative(params.Gas, gasLookUp(op, *st.CallFrame, params.Callee, stack, maybe, &gasMem))
+		gasCost, memNeeded := gasLookUp(op, *st.CallFrame, params.Callee, stack, maybe, &gasMem)
+		gaserr := engine.UseGasNegative(params.Gas, gasCost)
 		if gaserr != nil {
 			return nil, gaserr
 		}
+		// Memory is expanded only after the expansion has been paid for: allocating first let an
+		// instruction with a huge memory operand exhaust the node's memory for almost no gas.
+		expandMemory(&gasMem, maybe, memNeeded)
 
 		switch op {
 
@@ -787,10 +791,11 @@ func (c *CVMContract) jump(to uint64, pc *uint64) error {
 }
 
 // gasLookup calculates the gas cost of a given opcode, based on the CVM state and stack values.
-func gasLookUp(op OpCode, state engine.CallFrame, addr crypto.Address, st *Stack, err *errors.Maybe, dynMem *gasMemory) uint64 {
+// It also returns the (word-aligned) memory size the instruction needs; the caller expands the memory after charging.
+func gasLookUp(op OpCode, state engine.CallFrame, addr crypto.Address, st *Stack, err *errors.Maybe, dynMem *gasMemory) (uint64, uint64) {
 	gas := instructionSet[op].staticGas
 	if instructionSet[op].dynamicGas == nil {
-		return gas
+		return gas, 0
 	}
 
 	var mem uint64
@@ -811,13 +816,21 @@ func gasLookUp(op OpCode, state engine.CallFrame, addr crypto.Address, st *Stack
 		err.PushError(err2)
 	}
 	gas += dynGas
+	return gas, mem
+}
+
+// expandMemory grows the frame's memory to the given size (zero filled).
+func expandMemory(dynMem *gasMemory, err *errors.Maybe, mem uint64) {
+	if err.Error() != nil {
+		// the frame is about to abort (e.g. the size computation overflowed): nothing to allocate
+		return
+	}
 	for mem > dynMem.Capacity().Uint64() {
 		dynMem.Write(dynMem.Capacity(), make([]byte, mem-(dynMem.Capacity().Uint64())))
 		if err.Error() != nil {
 			break
 		}
 	}
-	return gas
 }
 
 // Returns a subslice from offset of length length and a bool
